@@ -476,6 +476,17 @@ fn builtin_spellings(ctx: &Ctx, runs: &AtomicU64, groups: &AtomicU64, samples: &
                 bad.push(format!("{name} --{}", o.long));
             }
         }
+        // a sign character where an option letter belongs (`-+x`, `-x+`; for the built-ins that
+        // also take `+x` options: `+-x`, `-+`, `+-`)
+        for o in opts.iter().filter(|o| arg_of(o).is_none()) {
+            bad.push(format!("{name} -+{} {}", o.short, u.operands));
+            bad.push(format!("{name} -{}+ {}", o.short, u.operands));
+            if matches!(name.as_str(), "typeset" | "export" | "readonly" | "local" | "set") {
+                bad.push(format!("{name} +-{} {}", o.short, u.operands));
+                bad.push(format!("{name} -+ {}", u.operands));
+                bad.push(format!("{name} +- {}", u.operands));
+            }
+        }
         // ambiguous prefixes
         for plen in 1..8 {
             let prefixes: std::collections::BTreeSet<&str> = longs.iter().filter(|l| l.len() > plen).map(|l| &l[..plen]).collect();
